@@ -204,3 +204,25 @@ Theorem non_tcp_history_irrelevant E cfg clk f tb1 tb2 :
   view_tcp cfg f = None ->
   outcome E cfg clk tb1 f = outcome E cfg clk tb2 f.
 Proof. apply non_tcp_table_irrelevant. Qed.
+
+(* the boolean class predicate implies the hypothesis of the theorem *)
+Lemma collision_free_sound cfg fl h :
+  collision_free cfg fl h = true -> no_collision_with cfg fl h.
+Proof.
+  unfold collision_free, no_collision_with. intros H clk g v Hin Hv Hd Hc.
+  rewrite forallb_forall in H. specialize (H (clk, g) Hin). cbn [snd] in H.
+  unfold collides in H. rewrite Hv, Hd in H. apply negb_true_iff in H.
+  assert ((flow_cookie cfg (flow_of v) =? flow_cookie cfg fl) = true) as E by (apply N.eqb_eq; exact Hc).
+  rewrite E in H. cbn [andb] in H. apply negb_false_iff in H. apply flow_eqb_eq. exact H.
+Qed.
+
+Theorem interference_free_bool E cfg h clk f v tb1 :
+  Forall (fun g => bytes_ok g = true) (frames h) ->
+  view_tcp cfg f = Some v ->
+  collision_free cfg (flow_of v) h = true ->
+  run E cfg [] h = Ok tb1 ->
+  exists tb2, run E cfg [] (restrict cfg (flow_of v) h) = Ok tb2 /\
+              outcome E cfg clk tb1 f = outcome E cfg clk tb2 f.
+Proof.
+  intros Hall Hv Hc. apply interference_free; try assumption. apply collision_free_sound. exact Hc.
+Qed.
